@@ -23,6 +23,9 @@ theorem step_events {s s' : State} {op : Op} {r : Res} (hw : WF s) (e : step s o
     · split at e <;> (cases e; exact EvStep.refl _)
     · cases e; exact EvStep.refl _
   | curFromBuf c b => simp only [step] at e; cases e; exact EvStep.refl _
+  | curSub dst src off len =>
+    simp only [step] at e
+    split at e <;> (cases e; exact EvStep.refl _)
   | bufFromArray b bs =>
     simp only [step] at e
     split at e
